@@ -397,7 +397,7 @@ func RunLease(c *Case) *Result {
 // woken by that one Unlock. An episode in which B is still blocked 1.5 s later (the default lease is 10 s: B would get
 // the lock when the deleted record's lease would have run out) is a lost hand-off. Thousands of episodes per case, the
 // delay between B's call and A's Unlock sweeps 0..40 us. Judged with a sleep canary beside the episodes: an episode counts only if the canary was never more than 200 ms late.
-func runHandoffOnce(c *Case) (late int, worst time.Duration, episodes int, canaryMax time.Duration, setup string) {
+func runHandoffOnce(c *Case) (late int, worst time.Duration, episodes int, canaryMax time.Duration, setup string, ctxStuck int, ctxWhat string) {
 	f := c.Free
 	inner := inmem.New()
 	pa, pb := dist.NewKvsLockProvider(inner, "/locks/"), dist.NewKvsLockProvider(inner, "/locks/")
@@ -455,10 +455,54 @@ func runHandoffOnce(c *Case) (late int, worst time.Duration, episodes int, canar
 					worst = d
 				}
 			case <-time.After(15 * time.Second):
-				return late, 20 * time.Second, episodes, 0, "" // never: reported as the worst case
+				return late, 20 * time.Second, episodes, 0, "", 0, "" // never: reported as the worst case
 			}
 		}
 		waiter.Unlock()
+	}
+	// deadline episodes: the holder keeps the lock, the other Locker calls LockWithCtx with a context that ends by its own
+	// DEADLINE while the call is parked in the storage wait: the call has to come back with the context's error then
+	for k := 0; k < 3; k++ {
+		holder, waiter := la, lb
+		if k%2 == 1 {
+			holder, waiter = lb, la
+		}
+		holder.Lock()
+		d := time.Duration(10+20*k) * time.Millisecond
+		var ctx context.Context
+		var cancel context.CancelFunc
+		if k == 1 {
+			ctx, cancel = context.WithDeadline(context.Background(), time.Now().Add(d))
+		} else {
+			ctx, cancel = context.WithTimeout(context.Background(), d)
+		}
+		done := make(chan error, 1)
+		go func() { done <- waiter.LockWithCtx(ctx) }()
+		select {
+		case err := <-done:
+			if err == nil {
+				ctxStuck++
+				ctxWhat = "LockWithCtx returned nil while another Locker was holding the lock"
+				waiter.Unlock()
+			}
+		case <-time.After(d + 1500*time.Millisecond):
+			ctxStuck++
+			ctxWhat = fmt.Sprintf("LockWithCtx with a context that ended by its deadline (%v) had not returned 1.5 s after the deadline (the holder kept the lock)", d)
+			holder.Unlock()
+			select {
+			case err := <-done:
+				if err == nil {
+					waiter.Unlock()
+				}
+			case <-time.After(15 * time.Second):
+				cancel()
+				return
+			}
+			cancel()
+			continue
+		}
+		cancel()
+		holder.Unlock()
 	}
 	return
 }
@@ -469,12 +513,17 @@ func RunHandoff(c *Case) *Result {
 	var worst time.Duration
 	var cmax time.Duration
 	for attempt := 0; attempt < 3; attempt++ {
-		late, w, n, cm, setup := runHandoffOnce(c)
+		late, w, n, cm, setup, ctxStuck, ctxWhat := runHandoffOnce(c)
 		if setup != "" {
 			res.Discard = setup
 			return res
 		}
 		eps += n
+		if ctxStuck > 0 && cm < 200*time.Millisecond {
+			res.Direct = append(res.Direct, Direct{What: "a LockWithCtx whose context ended did not return the context's error", Detail: fmt.Sprintf(
+				"%s (a sleep canary beside it was never more than %v late)", ctxWhat, cm.Round(time.Millisecond))})
+			break
+		}
 		if late > 0 && cm < 200*time.Millisecond {
 			lateRuns++
 			if w > worst {
